@@ -102,6 +102,8 @@ impl<T: Read + Write + ScmSocket> HttpConnection<T> {
 
         let mut line_start_index = 0;
         loop {
+            #[cfg(feature = "verif_hooks")]
+            crate::verif::tick("HttpConnection::try_read");
             match self.state {
                 ConnectionState::WaitingForRequestLine => {
                     if !self.parse_request_line(&mut line_start_index, end_cursor)? {
@@ -547,6 +549,30 @@ impl<T: Read + Write + ScmSocket> HttpConnection<T> {
     /// Returns `true` if there are bytes waiting to be written into the stream.
     pub fn pending_write(&self) -> bool {
         self.response_buffer.is_some() || !self.response_queue.is_empty()
+    }
+}
+
+#[cfg(feature = "verif_hooks")]
+impl<T> HttpConnection<T> {
+    /// Read-only snapshot of the connection's internal state.
+    pub fn verif_probe(&self) -> crate::verif::ConnectionProbe {
+        crate::verif::ConnectionProbe {
+            state: match self.state {
+                ConnectionState::WaitingForRequestLine => 0,
+                ConnectionState::WaitingForHeaders => 1,
+                ConnectionState::WaitingForBody => 2,
+                ConnectionState::RequestReady => 3,
+            },
+            read_cursor: self.read_cursor,
+            body_bytes_to_be_read: self.body_bytes_to_be_read,
+            body_len: self.body_vec.len(),
+            has_pending_request: self.pending_request.is_some(),
+            parsed_requests: self.parsed_requests.len(),
+            response_queue: self.response_queue.len(),
+            response_buffer: self.response_buffer.as_ref().map(|b| b.len()),
+            files: self.files.len(),
+            payload_max_size: self.payload_max_size,
+        }
     }
 }
 
